@@ -24,7 +24,15 @@ def build_harness(release=False):
 def model_check(model, workers=8, timeout=1500, cfg="MC_check.cfg"):
     rc, out, dt = run_tlc(model + ".tla", cfg, workers=workers, timeout=timeout, heap="8g")
     ok = "Model checking completed. No error has been found." in out
-    return ok, tlc_stats(out), out, dt
+    st = tlc_stats(out)
+    # TLC's disk-backed state queue mangles non-ASCII strings (see tlcutil.run_tlc): a model with such text must stay small
+    try:
+        nonascii = any(ord(ch) > 127 for ch in open(os.path.join(SPEC, model + ".tla"), encoding="utf-8").read())
+    except Exception:
+        nonascii = False
+    if ok and nonascii and st.get("distinct", 0) > 8000:
+        ok = False; out += "\nTOOL: model %s contains non-ASCII text and has more than 8000 states: TLC's state queue may spill to disk and corrupt it\n" % model
+    return ok, st, out, dt
 
 def gen_edges(model, workers=8, timeout=3000, cfg="MC_gen.cfg"):
     """every transition of the model with a shortest behaviour reaching it"""
